@@ -116,3 +116,25 @@ Definition comp_scenario (rels : list (list msg)) (meta ti bi : nat) (k : Z) : s
           end
       end
   end.
+
+(* ---- tokeniser options that are arguments rather than part of cfg *)
+(* the constructor with an explicit ppqn (default step sizes and note values still come from the global PPQN) *)
+Definition make_cfg_ppqn (ppqn ntracks plo phi : Z) (steps values : option (list Z)) (nbins : Z)
+           (running ftrk fval fvel simplify : bool) : cfg :=
+  let c := make_cfg ntracks plo phi steps values nbins running ftrk fval fvel simplify in
+  mkcfg ppqn (c_ntracks c) (c_plo c) (c_phi c) (c_steps c) (c_values c) (c_vbins c) (c_tslo c) (c_tshi c)
+        (c_running c) (c_ftrk c) (c_fval c) (c_fvel c) (c_simplify c).
+(* insert_bar_token=False: the only effect is that bar tokens are not appended; the state is the same *)
+Definition drop_bars (nb : bool) (ts : list tok) : list tok :=
+  if nb then filter (fun t => negb (tok_eqb t TBar)) ts else ts.
+Fixpoint tokenise_calls_nb (nb : bool) (c : cfg) (st : tstate) (calls : list (list (list msg))) : string :=
+  match calls with
+  | [] => ""
+  | tr :: rest =>
+      match tokenise c st tr with
+      | Err e => "!" ++ show_err e
+      | Ok (ts, st') => show_toks (drop_bars nb ts) ++ "#" ++ show_tstate st' ++ "$" ++ tokenise_calls_nb nb c st' rest
+      end
+  end.
+Definition tokenise_ns_nb (nb : bool) (c : cfg) (tracks : list (list msg)) : string :=
+  show_res (fun x => show_toks (drop_bars nb (fst x))) (tokenise c (tstate0 c) tracks).
